@@ -570,6 +570,9 @@ class RecurrencePlot(Cached):
         if self.silence_level <= 1:
             print("Calculating recurrence plot at fixed threshold...")
 
+        #  The sequential RQA mode works from the threshold itself
+        self.threshold = threshold
+
         distance = RecurrencePlot.distance_matrix(self, self.metric)
         n_time = distance.shape[0]
         recurrence = np.zeros((n_time, n_time), dtype="int8")
